@@ -734,7 +734,7 @@ def splice_body(body, d, em, target):
                     if j >= len(lines):
                         raise ExtractError("statement end not found after %r in %s" % (pat, target))
                 k = j + 1
-            lines[k:k] = ["proof { " + text.strip() + " }"]
+            lines[k:k] = ("proof { " + text.strip() + " }").split("\n")
             em.rules.add("E5")
     body = "\n".join(lines)
     # loops
